@@ -18,7 +18,8 @@ Local Open Scope N_scope.
    e_clc / e_consec lead of a run of e_clc consecutive registers / a follower of the run
    e_memsizes       memory operand sizes (bytes) the database allows at this position when the other operands stay as they are *)
 Record exp_op := mk_exp { e_read : bool; e_rbytes : N; e_write : bool; e_changed : N; e_gpexact : bool; e_phys : option (N * N);
-                          e_clc : N; e_consec : bool; e_memsizes : list N }.
+                          e_clc : N; e_consec : bool; e_memsizes : list N;
+                          e_memforms : list (N * list N) (* (size, feature ids of the extensions) of every database form with a memory operand here *) }.
 (* c_form: index of the database form; c_rf/c_wf: CPU flags read / written (W, X, U, 0, 1) per the database; c_extra_read: a {k}
    mask is present; c_merge: merge-masking (no {z}, not an implicitly zeroing instruction, register destination);
    c_rmcheck: register-only tuple (the reading under which the register allocator uses kRegMem). *)
@@ -86,3 +87,34 @@ Definition case_feat_good (T : tables) (C : feat_consts) (c : case) : bool :=
    any CPU with the reported features provided the encoder emits that form (which form is emitted is C01's subject) *)
 Definition features_cover (c : case) (rep : list N) : Prop :=
   exists alt, In alt (c_feat c) /\ forall f, In f alt -> In f rep.
+
+(* ------------------------------------------------------------------ features of the memory form (rm_feature) *)
+(* A reg/mem claim with size s: some database form with an s-byte memory operand at that position (other operands unchanged) needs no
+   extension beyond the features reported for the register tuple plus the reported rm_feature. *)
+Definition op_rmfeat_ok (avail : list N) (e : exp_op) (o : op_rw) : bool :=
+  implb (test (o_flags o) fRegM)
+        (existsb (fun sf => (fst sf =? o_rmsize o) && forallb (has avail) (snd sf)) (e_memforms e)).
+(* architectural implication between extensions used here: a CPU with AVX2 has AVX (Intel SDM vol. 1, 14.7.1 detection of AVX2) *)
+Definition with_implied (C : feat_consts) (avail : list N) : list N :=
+  if has avail (f_AVX2 C) then f_AVX C :: avail else avail.
+Definition case_rmfeat_ok (T : tables) (C : feat_consts) (c : case) : bool :=
+  match query_rw_info T (c_q c), query_features T C (c_q c) with
+  | Some out, Some feats => implb (c_rmcheck c) (all2 (op_rmfeat_ok (with_implied C (i_rmfeat out :: feats))) (c_exp c) (i_ops out))
+  | _, _ => false
+  end.
+Definition rm_feature_claims_true (C : feat_consts) (c : case) (out : rw_info) (feats : list N) : Prop :=
+  Forall2 (fun e o => has_flag (o_flags o) fRegM ->
+                      exists sf, In sf (e_memforms e) /\ fst sf = o_rmsize o /\
+                                 forall x, In x (snd sf) -> In x (with_implied C (i_rmfeat out :: feats)))
+          (c_exp c) (i_ops out).
+
+(* ------------------------------------------------------------------ all four checks of an "ok" case in one pass (each query evaluated once) *)
+Definition case_fused (T : tables) (C : feat_consts) (c : case) : bool :=
+  match query_rw_info T (c_q c), query_features T C (c_q c) with
+  | Some out, Some feats =>
+      out_covers c out &&
+      implb (c_rmcheck c) (all2 op_rm_ok (c_exp c) (i_ops out)) &&
+      (if c_featcheck c then existsb (feat_alt_ok feats) (c_feat c) else negb (existsb (feat_alt_ok feats) (c_feat c))) &&
+      implb (c_rmcheck c) (all2 (op_rmfeat_ok (with_implied C (i_rmfeat out :: feats))) (c_exp c) (i_ops out))
+  | _, _ => false
+  end.
